@@ -6,6 +6,7 @@ the solo run leaves in the output cell of every window `1` iff `count >= N*N/2`,
 import Mahotas.Model.C12Kernels3
 import Mahotas.Model.C08ViewsA
 import Mahotas.Proofs.C12Kernels2
+import Mahotas.Proofs.C08Kernels
 namespace Mahotas.C12
 open Mahotas
 
@@ -25,6 +26,22 @@ theorem locPixel_rolesOk (isMin : Bool) (vA vOut : C08.View) (nb : List (List In
   simp only [locPixel, List.mem_cons, List.mem_map] at hl
   rcases hl with rfl | rfl | ⟨a, _, rfl⟩ <;> simp [Role.ok]
 
+theorem hmPixel_dst (vA vOut : C08.View) (tab : List (Int × Int)) (bshape : List Nat) (i : Nat) :
+    (hmPixel vA vOut tab bshape i).dst = 0 ∧ (hmPixel vA vOut tab bshape i).doff = iterAddr vOut i := by
+  unfold hmPixel; split <;> exact ⟨rfl, rfl⟩
+
+theorem hmPixel_rolesOk (vA vOut : C08.View) (tab : List (Int × Int)) (bshape : List Nat) (i : Nat) :
+    (hmPixel vA vOut tab bshape i).rolesOk (2, 1) = true := by
+  rw [rolesOk_iff]
+  unfold hmPixel
+  split
+  · refine ⟨by simp, ?_⟩
+    intro l hl
+    simp only [List.mem_map] at hl
+    obtain ⟨e, _, rfl⟩ := hl
+    simp [Role.ok]
+  · exact ⟨by simp, fun l hl => by simp at hl⟩
+
 theorem kernel3_rolesOk (k : Kernel3) : ∀ r ∈ k.raw, r.rolesOk k.arity = true := by
   cases k with
   | locminmax isMin vA vOut vBc bc =>
@@ -33,6 +50,11 @@ theorem kernel3_rolesOk (k : Kernel3) : ∀ r ∈ k.raw, r.rolesOk k.arity = tru
     rcases hr with h | ⟨k, _, rfl⟩
     · exact filterCopy_rolesOk 1 vBc (2, 2) (by simp) (by simp) r h
     · exact locPixel_rolesOk _ _ _ _ _
+  | hitmiss vA vOut tab bshape =>
+    intro r hr
+    simp only [Kernel3.raw, hitmissRaw, List.mem_map] at hr
+    obtain ⟨i, _, rfl⟩ := hr
+    exact hmPixel_rolesOk _ _ _ _ _
   | majority n vA vOut =>
     intro r hr
     simp only [Kernel3.raw, majorityRaw] at hr
@@ -232,5 +254,68 @@ theorem locminmax_solo_value (kcs : List KCall) (t : Nat) (isMin : Bool) (vA vOu
   rw [hop]
   simp only [locVal, C14.locAt, List.all_map, Function.comp_def]
   rfl
+
+theorem all_zip_map (tab : List (Int × Int)) (f : Int → Int) :
+    ((tab.map (·.2)).zip (tab.map fun e => f e.1)).all (fun p => p.2 == p.1) = tab.all (fun e => f e.1 == e.2) := by
+  induction tab with
+  | nil => rfl
+  | cons e t ih => simp only [List.map_cons, List.zip_cons_cons, List.all_cons, ih]
+
+theorem hitmiss_solo_value (kcs : List KCall) (t : Nat) (vA vOut : C08.View) (tab : List (Int × Int)) (bshape : List Nat)
+    (aA aBc aOut : Nat)
+    (hk : kcs[t]? = some ((Kernel3.hitmiss vA vOut tab bshape).call ⟨[aA, aBc], [aOut]⟩))
+    (hne : aA ≠ aOut) (mA : Int → Int) (m : Mem)
+    (hA : ∀ a, m ((KLoc.mk aA a).toLoc (kcs.map (·.call))) = mA a)
+    (hinj : ∀ k k', k < shapeSize vA.shape → k' < shapeSize vA.shape →
+        iterAddr vOut k = iterAddr vOut k' → k = k')
+    (k : Nat) (hkn : k < shapeSize vA.shape) :
+    solo (compile kcs) t m ((KLoc.mk aOut (iterAddr vOut k)).toLoc (kcs.map (·.call))) =
+      if C14.hmEvaluated vA.shape bshape (vA.flatToPos (k : Int)) then
+        (if tab.all (fun e => C08.readAtFlat mA vA ((k : Int) + e.1).toNat == e.2) then 1 else 0)
+      else 0 := by
+  let c : Call := ⟨[aA, aBc], [aOut]⟩
+  have hcne : c.outputs ≠ [] := by simp [c]
+  let calls := kcs.map (·.call)
+  let G : Nat → Step := fun k => (mkStep c (hmPixel vA vOut tab bshape k)).compile calls
+  have hprog := compile_gather kcs t c [] (hmPixel vA vOut tab bshape) (shapeSize vA.shape)
+    (by rw [hk]; simp [Kernel3.call, Kernel3.raw, hitmissRaw, c])
+  have hdst : ∀ k, (G k).dst = (KLoc.mk aOut (iterAddr vOut k)).toLoc calls := by
+    intro k
+    have := hmPixel_dst vA vOut tab bshape k
+    simp only [G, KStep.compile, mkStep, this.1, this.2]
+    rfl
+  rw [solo_eq_execAll, hprog, ← hdst k]
+  rw [gather_solo _ G _ (fun a b ha hb hab => by
+      rw [hdst a, hdst b] at hab
+      have := KLoc.toLoc_inj calls _ _ hab
+      exact hinj a b ha hb (by simpa using this)) m k hkn]
+  obtain ⟨M, hM⟩ : ∃ M, M = execAll (([] : List RStep).map (fun r => (mkStep c r).compile calls) ++
+        (List.range k).map G) m := ⟨_, rfl⟩
+  have hreadA : ∀ a, M ((KLoc.mk aA a).toLoc calls) = mA a := by
+    intro a
+    rw [hM, execAll_frame, hA a]
+    intro s hs
+    rcases List.mem_append.1 hs with h | h
+    · simp at h
+    · obtain ⟨j, _, rfl⟩ := List.mem_map.1 h
+      exact compiled_dst_ne calls c hcne _ ⟨aA, a⟩ (by simp [c, hne])
+  rw [← hM]
+  by_cases hev : C14.hmEvaluated vA.shape bshape (vA.flatToPos (k : Int)) = true
+  · have hG : (G k).op = hmVal (tab.map (·.2)) ∧ (G k).srcs.map M.get =
+        tab.map (fun e => M ((KLoc.mk aA (vA.atFlat ((k : Int) + e.1).toNat)).toLoc calls)) := by
+      constructor
+      · simp only [G, KStep.compile, mkStep, hmPixel, hev, if_true]
+      · simp only [G, KStep.compile, mkStep, hmPixel, hev, if_true, List.map_map]
+        rfl
+    rw [hG.1, hG.2]
+    simp only [hev, if_true, hmVal, hreadA]
+    rw [all_zip_map tab (fun d => mA (vA.atFlat ((k : Int) + d).toNat))]
+    rfl
+  · have hG : (G k).op = (fun _ => 0) := by
+      simp only [G, KStep.compile, mkStep, hmPixel, hev]
+      rfl
+    rw [hG]
+    simp [hev]
+
 
 end Mahotas.C12
